@@ -1,6 +1,7 @@
 """C13 Reduced-ring arithmetic is the homomorphic image of integer arithmetic."""
 import json
 import os
+import shutil
 import threading
 
 import framework as fw
@@ -228,4 +229,6 @@ def selftest(ctx):
     ok = v0["bad"] == [] and got == [1, 3, 4, 5, 7]
     print("SELFTEST %s: clean trace flagged %s; corrupted events [1, 3, 4, 5, 7] -> monitor flagged %s (%s)" %
           ("PASS" if ok else "FAIL", [b["i"] for b in v0["bad"]], got, [b["why"] for b in v["bad"]]))
+    if ok:
+        shutil.rmtree(ctx.rundir, ignore_errors=True)
     return 0 if ok else 2
